@@ -312,16 +312,7 @@ func c17CallersPassID(w *core.World, f *core.FuncInfo, idField *types.Var, depth
 			if g == nil {
 				return false
 			}
-			ok := false
-			ast.Inspect(g.Decl.Body, func(x ast.Node) bool {
-				if rs, isRet := x.(*ast.ReturnStmt); isRet && len(rs.Results) == 1 {
-					if strings.HasPrefix(origin(g, rs.Results[0], 3), "call:pkg/datasource/sql.XaIdBuild(param:") {
-						ok = true
-					}
-				}
-				return true
-			})
-			if !ok {
+			if pureIDBuilder(g) != "" {
 				return false
 			}
 		case strings.HasPrefix(o, "param:"):
@@ -360,6 +351,13 @@ func c17Status(r *core.Run, mgr *types.Named) {
 		// the identifier is built from the request
 		for _, cs := range w.Calls(fn) {
 			if cs.Static != nil && cs.Static.Name() == "xaIDBuilder" && len(cs.Call.Args) == 2 {
+				if g := w.Info(cs.Static); g != nil {
+					r.Fn(g)
+					r.Sites++
+					why := pureIDBuilder(g)
+					r.Check(why == "", "C17.id", core.ShortKey(g.Obj)+" : the phase-two identifier is a function of (xid, branch id) alone", w.Pos(g.Decl.Pos()), "every return is XaIdBuild(xid, branchId)",
+						"the identifier handed to phase two is not always XaIdBuild of this request's xid and branch id ("+why+"): a value remembered from another branch of the same global transaction makes XA COMMIT / XA ROLLBACK address the wrong branch, while the prepared one gets neither")
+				}
 				a, b := origin(fn, cs.Call.Args[0], 3), origin(fn, cs.Call.Args[1], 3)
 				r.Sites++
 				r.Check(strings.HasSuffix(a, ".Xid") && strings.HasSuffix(b, ".BranchId") && strings.HasPrefix(a, "param:"), "C17.id", core.ShortKey(fn.Obj)+" : phase-two identifier from the request's Xid and BranchId", w.Pos(cs.Call.Pos()), a+", "+b, "phase two builds the branch identifier from ("+a+", "+b+")")
@@ -603,4 +601,34 @@ func c17Reset(r *core.Run, xc *types.Named) {
 		r.Check(lowerIn[fv], "C17.reset", key, w.Pos(fv.Pos()), "lowered by a function BeginTx/Commit/Rollback/ResetSession reach",
 			"the flag is raised in "+strings.Join(u.raised, ", ")+" but lowered only in ["+strings.Join(u.lowered, ", ")+"], none of which the per-branch life cycle (BeginTx, Commit, Rollback, ResetSession) reaches: a pooled connection is reused without Close, so the flag stays raised for every later branch on it")
 	}
+}
+
+// pureIDBuilder: every return of g is XaIdBuild(<param>, <param>) with two different parameters of g.
+// Returns "" or what deviates.
+func pureIDBuilder(g *core.FuncInfo) string {
+	bad, n := "", 0
+	ast.Inspect(g.Decl.Body, func(x ast.Node) bool {
+		if _, ok := x.(*ast.FuncLit); ok {
+			return false
+		}
+		rs, ok := x.(*ast.ReturnStmt)
+		if !ok || len(rs.Results) != 1 {
+			return true
+		}
+		n++
+		c, ok := ast.Unparen(rs.Results[0]).(*ast.CallExpr)
+		if !ok || core.Callee(g.Pkg.TypesInfo, c) == nil || core.Callee(g.Pkg.TypesInfo, c).Name() != "XaIdBuild" || len(c.Args) != 2 {
+			bad = "returns '" + core.ExprString(rs.Results[0]) + "'"
+			return true
+		}
+		a, b := origin(g, c.Args[0], 2), origin(g, c.Args[1], 2)
+		if !strings.HasPrefix(a, "param:") || !strings.HasPrefix(b, "param:") || a == b {
+			bad = "XaIdBuild(" + a + ", " + b + ")"
+		}
+		return true
+	})
+	if n == 0 {
+		return "no return"
+	}
+	return bad
 }
